@@ -411,10 +411,12 @@ def run(ctx, rep):
         sock_m = _Obj2(getpeername=lambda: ("10.0.0.9", 4444), close=noop2, fileno=lambda: 7)
         all_m = {n_: m_.node for k_ in reversed(ctx.repo.mro(tpc)) for n_, m_ in k_.methods.items()}
         try:
-            MIp.call_method(fam.node, st_a, [sock_m], {
+            extra_a = {
                 "__calls__": {"self._authenticate_and_build_connection": lambda s_: (sock_m, conn_m)},
                 "__methods__": {k_: v_ for k_, v_ in all_m.items() if k_ not in ("_accept_method", "_authenticate_and_build_connection")},
-                "__max_iter__": 100})
+                "__max_iter__": 100}
+            extra_a["__global_lookup__"] = K.module_function_lookup(ctx, fam.module, extra_a)
+            MIp.call_method(fam.node, st_a, [sock_m], extra_a)
             okreg = seen_at_register == [(7, True)] and st_a["fd_to_conn"].get(7) is conn_m
             rep.ob("R16.2", "ThreadPoolServer._accept_method: a new connection is in fd_to_conn before its descriptor is polled", okreg,
                    "table entry first, poll registration second" if okreg else
